@@ -148,7 +148,8 @@ ProductCell(c1, c2) == {x \o z : x \in c1, z \in c2}
 Project(x, proj) == [i \in DOMAIN proj |-> x[proj[i]]]
 NoRepeatedCell(m) == Cardinality(GeoCells(m)) = Len(m.t)
 CellsAreExpectedPointSets(e) ==
-  /\ PreAll(e, NoRepeatedCell) => \A j \in DOMAIN e.post : NoRepeatedCell(e.post[j])
+  /\ (PreAll(e, NoRepeatedCell) /\ (e.op = "trace" => IsInjectiveSeq(e.par.facets)))     \* (a facet asked for twice
+       => \A j \in DOMAIN e.post : NoRepeatedCell(e.post[j])                             \*  is traced twice)
   /\ CASE e.op \in SubsetOps    -> GeoCells(Post(e)) = {GeoCell(Pre(e), k) : k \in KeptCells(e)}
        [] e.op = "add"          -> GeoCells(Post(e)) = GeoCells(e.pre[1]) \cup GeoCells(e.pre[2])
        [] e.op = "matmul"       -> /\ Len(e.post) = Len(e.pre)
